@@ -376,10 +376,9 @@ def perform_cached_doit(
     cache_directory.mkdir(exist_ok=True, parents=True)
     h = get_readable_hash(unevaluated_expr)
     filename = cache_directory / f"{h}.pkl"
-    if filename.exists():
-        cached_expr = _load_cached_expression(filename, unevaluated_expr)
-        if cached_expr is not None:
-            return cached_expr
+    cached_expr = _load_cached_expression(filename, unevaluated_expr)
+    if cached_expr is not None:
+        return cached_expr
     _LOGGER.warning(
         f"Cached expression file {filename} not found, performing doit()..."
     )
@@ -395,10 +394,14 @@ def _load_cached_expression(filename: Path, key_expr: sp.Expr) -> sp.Expr | None
     The hash in the file name is not unique for an expression (for instance, symbol
     assumptions are not printed). The cache file therefore contains the original
     expression as well and :code:`None` is returned if it is not equal to
-    :code:`key_expr`.
+    :code:`key_expr`. :code:`None` is also returned if the file does not exist or
+    cannot be unpickled, for instance because it was only partially written.
     """
-    with open(filename, "rb") as f:
-        cached = pickle.load(f)  # noqa: S301
+    try:
+        with open(filename, "rb") as f:
+            cached = pickle.load(f)  # noqa: S301
+    except Exception:  # noqa: BLE001
+        return None
     if not isinstance(cached, tuple) or len(cached) != 2:  # noqa: PLR2004
         return None
     stored_key, stored_expr = cached
